@@ -219,9 +219,9 @@ func TestC01(t *testing.T) {
 				p.PreMature = append(p.PreMature, sim.PreMat{Val: rapid.IntRange(0, 6).Draw(rt, "pmval"), Amount: int64(rapid.IntRange(1, 50).Draw(rt, "pmamt")), Height: int64(rapid.IntRange(2, 12).Draw(rt, "pmh"))})
 			}
 		}
-		prof := hist.ProfileNames[rapid.IntRange(0, len(hist.ProfileNames)-1).Draw(rt, "profile")]
+		prof := hist.PickProfile(rt)
 		tr := &hist.Trace{Params: p, Roles: hist.Roles(p, 3), Profile: prof}
-		nb := rapid.IntRange(4, maxBlocks).Draw(rt, "nblocks")
+		nb := hist.NewU(rt).Range(8, maxBlocks, "nblocks")
 		var g *hist.Gen
 		blocks := 0
 		out, feats := execute(h, tr, func(w *hist.World, i int) (hist.Step, bool) {
